@@ -38,6 +38,7 @@ structure St (α : Type) where
   round : Nat
   cost : α
   means : List (List α)                  -- K rows of d entries (the array of cluster means)
+  fitted : List Nat                      -- the labelling the current means / MRFs were fitted to
 
 section
 variable {α : Type} [Add α] [Sub α] [Mul α] [Div α] [Neg α] [Zero α] [NatCast α] [LT α] [DecidableLT α]
@@ -66,7 +67,7 @@ def phases (inp : Input α) (orc : Oracles α) : MainLoop.Phases (St α) String 
     | some l => .ok { s with labels := l }
     | none => .error "no-donor"
   stats := fun s =>
-    .ok { s with means := meanTable inp s.labels }
+    .ok { s with means := meanTable inp s.labels, fitted := s.labels }
   opt := fun s => .ok s
   relabel := fun s =>
     let r := Viterbi.viterbiFast inp.K (costPoints inp orc s)
@@ -75,7 +76,7 @@ def phases (inp : Input α) (orc : Oracles α) : MainLoop.Phases (St α) String 
 /-- `fit_stacked_data` from the initial (mixture-model) labelling on. -/
 def run (inp : Input α) (orc : Oracles α) (limit : Nat) (init : List Nat) :
     Except String (MainLoop.Outcome (St α)) :=
-  MainLoop.run (phases inp orc) (fun s => s.labels) limit ⟨init, 0, 0, []⟩
+  MainLoop.run (phases inp orc) (fun s => s.labels) limit ⟨init, 0, 0, [], []⟩
 end
 
 end FastTicc.Run
